@@ -64,6 +64,10 @@ def guards(decl, cell):
     allowed = decl.get("allowed")
     if allowed:
         allowed_items = [(lo, hi) for lo, hi, _ in allowed]
+        if fixed and cell != "" and cell.strip(" ") == "" and not intervals.accepts(allowed_items, 32):
+            # a blank-only fixed cell while blanks are not allowed: "empty" and "contains a disallowed character"
+            # contradict each other - not settled by the statement, not judged
+            return "grey", None
         for character in cell:
             if not intervals.accepts(allowed_items, ord(character)):
                 return "chars", None
@@ -324,6 +328,8 @@ def validate(decl, cell):
     """-> (verdict, value): verdict 'accept' / 'reject' / None (grey zone, not judged); for accept the
     value is the native value (for DateTime: dict of the fields the layout defines)."""
     guard, payload = guards(decl, cell)
+    if guard == "grey":
+        return None, None
     if guard == "empty-ok":
         return "accept", EMPTY_VALUE[decl["type"]]
     if guard is not None:
